@@ -28,7 +28,7 @@ fn payload(n: usize, seed: u64) -> Vec<u8> {
 enum Sock {
     L { id: ResourceId, addr: SocketAddr },
     C { ep: Endpoint, addr: SocketAddr, peer: usize },
-    R { sock: UdpSocket, addr: SocketAddr },
+    R { sock: Option<UdpSocket>, addr: SocketAddr }, // None: the peer went away (k), its address is kept for `o`
 }
 impl Sock {
     fn addr(&self) -> SocketAddr {
@@ -64,6 +64,7 @@ struct World {
     fails: Vec<String>,
     tags: std::collections::BTreeSet<&'static str>,
     v6: bool,
+    pending_err: std::collections::HashSet<usize>,
 }
 
 fn parse3(s: &str) -> Option<(usize, Option<usize>, usize, u64)> {
@@ -94,6 +95,7 @@ impl World {
             fails: vec![],
             tags: Default::default(),
             v6: false,
+            pending_err: Default::default(),
         }
     }
     fn any_addr(&self) -> &'static str {
@@ -130,9 +132,20 @@ impl World {
             }
         }
         else if !sent {
-            self.fails.push(format!("{} bytes from {} to {} not sent", data.len(), src, dst));
+            // legitimate only for a connected socket with a bounce pending (ECONNREFUSED reported once)
+            if !(lib && self.pending_err.remove(&src)) {
+                self.fails.push(format!("{} bytes from {} to {} not sent", data.len(), src, dst));
+            }
         }
-        if sent && dst < self.socks.len() {
+        else if lib && self.pending_err.remove(&src) {
+            // reported as Sent although the kernel refused it: it will be missing at the receiver
+            self.tags.insert("sent-while-error-pending");
+        }
+        let dst_alive = dst < self.socks.len() && !matches!(self.socks[dst], Sock::R { sock: None, .. });
+        if sent && !dst_alive && lib && matches!(self.socks[src], Sock::C { .. }) {
+            self.pending_err.insert(src);
+        }
+        if sent && dst_alive {
             if self.socks[dst].accepts(src) {
                 self.want.entry((dst, src)).or_default().push(data);
             }
@@ -160,7 +173,7 @@ impl World {
                 };
                 sock.set_nonblocking(true).unwrap();
                 let addr = sock.local_addr().unwrap();
-                self.socks.push(Sock::R { sock, addr });
+                self.socks.push(Sock::R { sock: Some(sock), addr });
             }
             "C" => {
                 let j: usize = match rest.parse() {
@@ -253,7 +266,7 @@ impl World {
                 let dst = self.socks[j].addr();
                 let data = payload(n, seed);
                 let res = match &self.socks[i] {
-                    Sock::R { sock, .. } => sock.send_to(&data, dst),
+                    Sock::R { sock: Some(sock), .. } => sock.send_to(&data, dst),
                     _ => return false,
                 };
                 let sent = match res {
@@ -276,6 +289,33 @@ impl World {
                 self.note_send(i, j, data, sent, false);
             }
             "w" if rest.is_empty() => self.pump(),
+            "k" | "o" => {
+                let j: usize = match rest.parse() {
+                    Ok(j) if j < self.socks.len() => j,
+                    _ => return false,
+                };
+                if kind == "k" {
+                    // the peer reads what it has, then goes away
+                    self.pump();
+                    match &mut self.socks[j] {
+                        Sock::R { sock, .. } if sock.is_some() => *sock = None,
+                        _ => return false,
+                    }
+                    self.tags.insert("absent-peer");
+                }
+                else {
+                    match &mut self.socks[j] {
+                        Sock::R { sock, addr } if sock.is_none() => match UdpSocket::bind(*addr) {
+                            Ok(s) => {
+                                s.set_nonblocking(true).unwrap();
+                                *sock = Some(s);
+                            }
+                            Err(_) => return false,
+                        },
+                        _ => return false,
+                    }
+                }
+            }
             _ => return false,
         }
         true
@@ -315,7 +355,7 @@ impl World {
             }
             let mut buf = vec![0u8; 70000];
             for i in 0..self.socks.len() {
-                if let Sock::R { sock, .. } = &self.socks[i] {
+                if let Sock::R { sock: Some(sock), .. } = &self.socks[i] {
                     loop {
                         match sock.recv_from(&mut buf) {
                             Ok((n, from)) => {
@@ -578,6 +618,10 @@ const CORPUS: &[&str] = &[
     "udp e2e L L f0>1:10:1 f1>0:11:2 w r0>1:12:3 r1>0:13:4 w",
     // a library socket connected to a raw peer, both directions
     "udp e2e R C0 s1:20:1 s1:1472:2 s1:1473:3 w x0>1:30:4 x0>1:0:5 w",
+    // a connected socket whose raw peer goes away: the first send bounces (Sent), the next one reports the
+    // pending error (ResourceNotFound, nothing transmitted) although the peer is back, the third arrives
+    "udp e2e R C0 s1:5:1 w k0 s1:6:2 w o0 s1:7:3 s1:8:4 s1:0:5 w x0>1:9:6 w",
+    "udp e2e L R C1 x1>2:3:1 s2:4:2 w k1 s2:5:3 w s2:6:4 w o1 s2:7:5 w s2:8:6 x1>2:2:7 w",
     // IPv6: the kernel takes 65527 bytes, the library's declared maximum stays 65507 on both send paths
     "udp e2e v6 L R C0 s2:65507:1 w s2:65508:2 s2:65527:3 s2:65528:4 f0>1:65508:5 f0>1:65527:6 f0>2:65508:7 w f0>1:65507:8 w x1>0:65507:9 w",
     // IPv6: a foreign datagram above the declared maximum reaches the library cut to its buffer
